@@ -68,7 +68,8 @@ def rule_generic(rep, pdoc):
             continue
         sn = sample_name(b["path"])
         word = re.compile(r"\b%s\b" % sn)
-        generic = any(word.search(a) for a in b["arg_tys"]) or word.search(b["ret"] or "") or any(word.search(a) for c in b["calls"] for a in c["args"])
+        generic = any(word.search(a) for a in b["arg_tys"]) or word.search(b["ret"] or "") or any(word.search(a) for c in b["calls"] for a in c["args"]) \
+            or word.search(b["path"]) or any(word.search(c["callee"]) for c in b["calls"])
         if not generic:
             continue
         n_bodies += 1
@@ -78,6 +79,13 @@ def rule_generic(rep, pdoc):
             if word.search(ret) or ret in ("()", "!"):
                 continue
             args = c["args"]
+            # type-level declassification: a function instantiated at the sample type that returns a plain number / bool / string without
+            # taking any sample (size_of::<T>(), align_of::<T>(), type_name::<T>(), TypeId::of::<T>(), ...) makes sizes depend on f32 vs f64
+            gen = re.findall(r"::<([^>]*(?:<[^>]*>[^>]*)*)>", c["callee"])
+            if not any(word.search(a) for a in args) and any(word.search(g) for g in gen) and c["crate"] != "rubato" \
+                    and re.match(r"^(usize|isize|u\d+|i\d+|bool|&'?\w* ?str|std::any::TypeId|std::alloc::Layout)$", ret):
+                points.append((c, "`%s` is instantiated at the sample type and returns `%s`: a size / identity of the type, which differs between f32 and f64" % (c["callee"][:80], ret)))
+                continue
             d_scalar = [a for a in args if scalar_sample(a, sn)]
             d_any = [a for a in args if word.search(a)]
             if not d_any:
